@@ -4,4 +4,4 @@
 wt=$1; shift
 for id in "$@"; do
   VERIF_REPO=$wt VERIF_EVIDENCE_DIR=/verif/build/tmp/evidence-trial /verif/bin/check $id --tier quick --scale ${SCALE:-1} 2>&1 | grep -E "^C[0-9]+ quick|VIOLATION|^  " | cut -c1-260 | head -6
-done
+done; rm -rf /verif/build/sut-* /verif/build/mod-*
